@@ -2,6 +2,7 @@
 // Every `assume_specification`, `external_type_specification` and axiom below is listed in
 // contracts/trusted.json and in every evidence file.
 use vstd::prelude::*;
+#[allow(unused_imports)] use vstd::std_specs::iter::IteratorSpec;
 use core::alloc::Allocator;
 use std::collections::VecDeque;
 use std::collections::HashMap;
@@ -32,6 +33,19 @@ pub struct ExInstant(std::time::Instant);
 
 #[verifier::external_type_specification]
 pub struct ExSeekFrom(std::io::SeekFrom);
+
+#[verifier::external_type_specification]
+#[verifier::external_body]
+#[verifier::reject_recursive_types(T)]
+pub struct ExOnce<T>(core::iter::Once<T>);
+
+/// `iter::once(v)`: a well-behaved finite iterator that yields exactly `v`
+pub assume_specification<T>[ core::iter::once::<T> ](value: T) -> (r: core::iter::Once<T>)
+    ensures
+        r.obeys_prophetic_iter_laws(),
+        r.decrease() is Some,
+        r.remaining() == seq![value],
+;
 
 #[verifier::external_type_specification]
 #[verifier::external_body]
@@ -174,6 +188,27 @@ pub assume_specification<T: Ord, A: Allocator + Clone>[ BTreeSet::<T, A>::pop_fi
         r is None <==> old(s)@.len() == 0,
         r is None ==> final(s)@ == old(s)@,
         r matches Some(m) ==> is_min(m, old(s)@) && final(s)@ == old(s)@.remove(m),
+;
+
+/// `Ord` on u64 is the usual order
+pub broadcast axiom fn axiom_u64_ord(a: u64, b: u64)
+    ensures #[trigger] ord_le::<u64>(a, b) <==> a <= b;
+
+/// `<[T]>::binary_search_by_key` (std contract): on a slice sorted by the key, Ok(i) names an element whose key equals `b`,
+/// Err(i) the insertion point (keys before it are smaller, keys from it on are larger).  The key function is any closure;
+/// its results are named through its own `ensures`.
+pub assume_specification<'a, T, B: Ord, F: FnMut(&'a T) -> B>[ <[T]>::binary_search_by_key ](s: &'a [T], b: &B, f: F) -> (r: Result<usize, usize>)
+    requires
+        forall|i: int| 0 <= i < s@.len() ==> call_requires(f, (&#[trigger] s@[i],)),
+        forall|i: int, j: int, ki: B, kj: B| 0 <= i <= j < s@.len() && #[trigger] call_ensures(f, (&s@[i],), ki) && #[trigger] call_ensures(f, (&s@[j],), kj) ==> ord_le(ki, kj),
+    ensures
+        match r {
+            Ok(i) => i < s@.len() && exists|k: B| #[trigger] call_ensures(f, (&s@[i as int],), k) && ord_le(k, *b) && ord_le(*b, k),
+            // (the key function is taken to be defined on every element: it satisfies its `requires` there)
+            Err(i) => i <= s@.len()
+                && (forall|j: int| #![trigger s@[j]] 0 <= j < i ==> exists|k: B| #[trigger] call_ensures(f, (&s@[j],), k) && ord_le(k, *b) && !ord_le(*b, k))
+                && (forall|j: int| #![trigger s@[j]] i <= j < s@.len() ==> exists|k: B| #[trigger] call_ensures(f, (&s@[j],), k) && ord_le(*b, k) && !ord_le(k, *b)),
+        },
 ;
 
 pub assume_specification<P: AsRef<std::path::Path>>[ std::fs::remove_file::<P> ](p: P) -> (r: std::io::Result<()>);
